@@ -44,6 +44,8 @@ def run(tier, seed, open_findings):
             'evil-rel': '../sand_evil/inc.xsd', 'evil-abs': os.path.join(evil, 'inc.xsd'), 'evil-url': 'file://' + os.path.join(evil, 'inc.xsd'), 'evil-pct': '../sand%5Fevil/inc.xsd',
             'sibling-rel': '../other/inc.xsd', 'sibling-dots': 'sub/../../other/inc.xsd', 'sibling-pct-dots': 'sub/%2E%2E/%2E%2E/other/inc.xsd', 'remote': 'http://example.invalid/inc.xsd',
             'remote-https': 'https://example.invalid/inc.xsd',
+            # dot segments percent-encoded twice / three times: a literal '%2E%2E' directory name after one decoding, never a parent reference (some mechanisms normalise twice)
+            'sibling-pct2-dots': '%252E%252E/other/inc.xsd', 'sibling-pct3-dots': '%25252E%25252E/other/inc.xsd', 'evil-pct2-sub': 'sub/%252E%252E/%252E%252E/sand_evil/inc.xsd',
             # absolute file URLs with literal dot segments: inside by prefix, outside once resolved (and the converse)
             'url-dots-out': 'file://' + base + '/../other/inc.xsd', 'url-dots-out2': 'file://' + base + '/sub/../../sand_evil/inc.xsd', 'url-dots-in': 'file://' + evil + '/../sand/sub/inc.xsd',
         }
